@@ -96,6 +96,19 @@ func knownOpen(verif, sig string) bool {
 	return false
 }
 
+// guarded runs a piece of the harness's own bookkeeping (generators of edited deltas, walkers of the oracles);
+// a panic inside it is a defect of the harness, not of the code under test: it is counted and the piece skipped.
+func guarded(run *vh.Run, what string, f func()) (ok bool) {
+	defer func() {
+		if e := recover(); e != nil {
+			run.Hist("harness-recovered:" + what)
+			ok = false
+		}
+	}()
+	f()
+	return true
+}
+
 func arrayShapes(v interface{}, into map[string]bool) {
 	switch x := v.(type) {
 	case map[string]interface{}:
@@ -415,7 +428,9 @@ func main() {
 			}
 			if !ob.nullKey && keysComparable(old) && keysComparable(nw) {
 				w := &deltaWalk{}
-				if msg := w.checkDelta(old, nw, nil, "$root"); msg != "" {
+				msg := ""
+				guarded(run, "delta-format oracle", func() { msg = w.checkDelta(old, nw, nil, "$root") })
+				if msg != "" {
 					run.Fail(idx, "delta-format", msg, c)
 				}
 			}
@@ -447,7 +462,7 @@ func main() {
 		}
 		if keysComparable(old) && keysComparable(nw) {
 			w := &deltaWalk{}
-			w.collect(old, nw, rt)
+			guarded(run, "index-list walker", func() { w.collect(old, nw, rt) })
 			ob.guides = w.guides
 			if len(w.guides) > 0 {
 				run.Hist("index-lists-other-than-the-model's")
@@ -456,7 +471,8 @@ func main() {
 		}
 		if !ob.nullKey && keysComparable(old) && keysComparable(nw) {
 			w := &deltaWalk{}
-			msg := w.checkDelta(old, nw, rt, "$root")
+			msg := ""
+			guarded(run, "delta-format oracle", func() { msg = w.checkDelta(old, nw, rt, "$root") })
 			if msg != "" {
 				sig := "delta-format"
 				for _, s := range []string{"delta-not-minimal", "delta-not-local", "reorder-indices-not-a-matching", "reorder-runs-not-maximal"} {
@@ -503,18 +519,22 @@ func main() {
 			s := src[cr.Intn(len(src))]
 			prev, delta := deepCopy(s.stripOld), deepCopy(s.delta)
 			var edits []string
-			if dm, isObj := delta.(map[string]interface{}); isObj && cr.Chance(50) {
-				// only rewritings that keep the delta well-formed
-				for k := 1 + cr.Intn(3); k > 0; k-- {
-					if name, ok := validEdit(cr, prev, dm); ok {
-						edits = append(edits, name)
+			if !guarded(run, "edited-delta generator", func() {
+				if dm, isObj := delta.(map[string]interface{}); isObj && cr.Chance(50) {
+					// only rewritings that keep the delta well-formed
+					for k := 1 + cr.Intn(3); k > 0; k-- {
+						if name, ok := validEdit(cr, prev, dm); ok {
+							edits = append(edits, name)
+						}
 					}
 				}
-			}
-			for k := 1 + cr.Intn(2); k > 0 && len(edits) == 0; k-- {
-				var e string
-				prev, delta, e = fuzzEdit(cr, prev, delta)
-				edits = append(edits, e)
+				for k := 1 + cr.Intn(2); k > 0 && len(edits) == 0; k-- {
+					var e string
+					prev, delta, e = fuzzEdit(cr, prev, delta)
+					edits = append(edits, e)
+				}
+			}) {
+				continue
 			}
 			c := Case{Origin: "fuzz", Fuzz: &FuzzCase{Prev: prev, Delta: delta, Edits: edits}}
 			idx := len(all)
